@@ -15,7 +15,7 @@ RULE = ("Hypothesis draws a TT tensor/operator (order 1-6, any rank profile 1-4,
         "dtype, torch.equal cores), storage disjointness and independence for clone, value equality on the checker's "
         "dense contraction (converted dtype for to). Non-trivial: some rank>1 and, for save/load, numpy-int ranks or a "
         "non-contiguous core. Distinct = structural signature.")
-BUDGET = {"quick": 4000, "thorough": 60000}
+BUDGET = {"quick": 4000, "thorough": 360000}
 FLOORS = {"quick": {"op:saveload": 500, "numpy_int_ranks": 100, "noncontiguous_core": 100, "operator": 200}}
 ASSUMPTIONS = ["files are written inside a per-case TemporaryDirectory", "device is CPU (no GPU in the sandbox)",
                "to(dtype) conversions complex->real are not generated (torch discards the imaginary part with a warning)"]
